@@ -117,6 +117,8 @@ bool build_check(const std::string& prop, const std::string& tier, CheckSpec& s,
         s.batches.push_back(mk("conc", q ? 400 : 40000, FAST, "single", {}, "2-6 real threads under the serialising seeded scheduler; write trap on the replica image and the shared-input arena; libc traps"));
         s.batches.push_back(mk("conc", q ? 12 : 600, {"C/portable32"}, "single", {}, "32-bit words"));
         s.batches.push_back(mk("conc", q ? 40 : 2000, {"G/g++-asm"}, "single", {}, "the same sources built with g++"));
+        s.batches.push_back(mk("wkd", q ? 160 : 8000, FAST, "single", {{"focus", 0}}, "WKD-IBE histories with every attribute list in the library's own format in caller memory: a list that differs after the call from what the caller built is state kept in (or written through) a const input"));
+        s.batches.push_back(mk("wkd", q ? 40 : 2000, FAST, "duo", {{"focus", 0}, {"maxops", 12}}, "the same as two concurrent caller threads (M-solo: each history's event log equals its log when run alone)"));
         return true;
     }
     err = "no check registered for property " + prop;
